@@ -142,6 +142,7 @@ type MTxn struct {
 	Failed  map[uint32]bool     // inserts whose callback returned an error
 	applied map[uint32]bool     // blocks already applied to the model
 	changes map[uint32][]Change // committed changes per block (trigger and stream oracles)
+	ghost   bool                // holds a store into the unmodelled column "ghost"
 }
 
 func (t *MTxn) add(op MOp) { t.Ops = append(t.Ops, op) }
